@@ -143,6 +143,13 @@ var (
 
 const colList = "id, g, i, f, s, d, k, j, b"
 
+// operands of the row-count clauses: literals, expressions, and bare (or merely parenthesised) variables, whose own
+// object is what the clause receives. @vl is 1..5 (integer), @vpc 40 (integer), @vf2 37.5 (float).
+var (
+	rowCounts  = []string{"3", "5", "(1 + 2)", "@vk + 1", "@vl", "@vl", "(@vl)", "(3)"}
+	rowOffsets = []string{"1", "2", "@vk", "@vk", "(@vk)", "@vl", "(1)"}
+)
+
 var colNames = strings.Split(colList, ", ")
 
 // genBase draws p distinct-looking row tuples (without id): g i f s d k j b; nil = NULL.
@@ -197,6 +204,7 @@ type gx struct {
 	wn       bool   // the case's without_null attribute of the companion files
 	pos      string // delimiter positions of the fixed-length companion file
 	narrow   bool   // only the columns of the fixed-length file (id g i f k b) exist
+	natural  bool   // arguments are bare variables / fetched values / cells that already have the documented type
 }
 
 func newGx(t *rapid.T, uses, leaves map[string]bool) *gx {
@@ -257,6 +265,9 @@ func (g *gx) leaf(ty byte) string {
 		cells = nil
 	}
 	srcs := []src{{"lit", 25, nil}}
+	if g.natural {
+		srcs = nil // only values that are OWNED by something that is read again: variables, fetched values, cells
+	}
 	if !g.noVars {
 		srcs = append(srcs, src{"var", 20, vars})
 		if len(curs) > 0 {
@@ -269,8 +280,11 @@ func (g *gx) leaf(ty byte) string {
 	if len(params) > 0 {
 		srcs = append(srcs, src{"param", 45, params})
 	}
-	if g.prep {
+	if g.prep && !g.natural {
 		srcs = append(srcs, src{"placeholder", 30, nil})
+	}
+	if len(srcs) == 0 {
+		srcs = []src{{"lit", 25, nil}}
 	}
 	ws := make([]int, len(srcs))
 	for i, s := range srcs {
@@ -278,11 +292,29 @@ func (g *gx) leaf(ty byte) string {
 	}
 	s := srcs[fw.Weighted(g.t, "leafSrc", ws)]
 	g.leaves[s.kind] = true
+	// an atom in parentheses (or under a unary plus) evaluates to the very object the variable, cell or literal
+	// owns, while the syntax node above it is not an atom any more
+	wrap := func(x string) string {
+		switch fw.Weighted(g.t, "leafWrap", []int{80, 14, 3, 3}) {
+		case 1:
+			g.leaves["parenthesised"] = true
+			return "(" + x + ")"
+		case 2:
+			g.leaves["parenthesised"] = true
+			return "((" + x + "))"
+		case 3:
+			if ty == 'n' || ty == 'k' {
+				g.leaves["unary_plus_atom"] = true
+				return "(+ " + x + ")"
+			}
+		}
+		return x
+	}
 	switch s.kind {
 	case "lit":
-		return g.literal(ty)
+		return wrap(g.literal(ty))
 	case "cell":
-		return g.col(g.pick("cell", s.txt))
+		return wrap(g.col(g.pick("cell", s.txt)))
 	case "placeholder":
 		var v string
 		if g.pct("phVar", 40) && len(vars) > 0 {
@@ -301,7 +333,7 @@ func (g *gx) leaf(ty byte) string {
 		g.using = append(g.using, v)
 		return "?"
 	}
-	return g.pick(s.kind, s.txt)
+	return wrap(g.pick(s.kind, s.txt))
 }
 
 func (g *gx) special(ty byte) string {
@@ -371,7 +403,7 @@ func (g *gx) expr(ty byte, d int) string {
 		return g.leaf('k')
 	case 'n', 's', 'd', 'b':
 	case 'a':
-		if g.pct("anyNull", 8) {
+		if !g.natural && g.pct("anyNull", 8) {
 			if g.noVars || g.pct("nullLit", 50) {
 				g.leaves["lit"] = true
 				return "NULL"
@@ -383,7 +415,7 @@ func (g *gx) expr(ty byte, d int) string {
 	default:
 		return g.special(ty)
 	}
-	if d <= 0 || g.budget <= 0 || g.pct("leaf", 30) {
+	if g.natural || d <= 0 || g.budget <= 0 || g.pct("leaf", 30) {
 		return g.leaf(ty)
 	}
 	g.budget--
@@ -409,11 +441,11 @@ func (g *gx) expr(ty byte, d int) string {
 func (g *gx) arg(c byte, d int, want byte) string {
 	switch c {
 	case 'n', 's', 'd', 'b':
-		if g.pct("offType", 12) {
+		if !g.natural && g.pct("offType", 12) {
 			c = 'a'
 		}
 	case 'a':
-		if want != 0 && !g.pct("anyFree", 25) {
+		if want != 0 && (g.natural || !g.pct("anyFree", 25)) {
 			c = want
 		}
 	}
@@ -761,6 +793,91 @@ func (g *gx) tableObject(kind string) string {
 	return "FIXED(" + g.spell("posSp", "'"+g.pos+"'", "@vpos", "('[' || '"+g.pos[1:]+"')") + ", `tx.txt`" + opt(enc, nh, wn) + ")"
 }
 
+// commands renders 1-3 statements that are not queries but take a value: SET @@flag (to the value the flag already
+// has in the session), ADD / REMOVE of a datetime format that matches no data, SET of an environment variable that
+// nothing else reads, ECHO / PRINT / PRINTF / EXECUTE with replace values. The value is a literal, a variable, a
+// variable in parentheses or (in a prepared statement) a placeholder bound to one of them.
+func (g *gx) commands() string {
+	val := func(label, lit, variable string) string {
+		if g.prep && g.pct(label+"Ph", 40) {
+			g.leaves["placeholder"] = true
+			if g.pct(label+"PhVar", 60) {
+				g.using = append(g.using, variable)
+			} else {
+				g.using = append(g.using, lit)
+			}
+			return "?"
+		}
+		switch fw.Uniform(g.t, label+"Sp", 4) {
+		case 0:
+			g.leaves["lit"] = true
+			return lit
+		case 1:
+			g.leaves["parenthesised"] = true
+			return "(" + variable + ")"
+		}
+		g.leaves["var"] = true
+		return variable
+	}
+	n := 1
+	if !g.prep {
+		n += fw.Uniform(g.t, "ncommands", 3) // (a prepared statement holds one statement here: placeholders are numbered per statement)
+	}
+	var out []string
+	for i := 0; i < n; i++ {
+		kind := g.pick("command", []string{"set_flag", "set_flag", "datetime_format", "set_env", "echo", "printf", "execute_format"})
+		if g.prep && (kind == "datetime_format" || kind == "execute_format") {
+			kind = "set_flag"
+		}
+		g.uses["cmd:"+kind] = true
+		switch kind {
+		case "set_flag":
+			eq := g.pick("setEq", []string{" TO ", " = "})
+			switch fw.Uniform(g.t, "flag", 12) {
+			case 0:
+				out = append(out, "SET @@LIMIT_RECURSION"+eq+val("lr", "1000", "@vlr")+";")
+			case 1:
+				out = append(out, "SET @@WAIT_TIMEOUT"+eq+val("wt", "30.0", "@vwt")+";")
+			case 2:
+				out = append(out, "SET @@CPU"+eq+val("cpu", "@vcpu + 0", "@vcpu")+";")
+			case 3:
+				out = append(out, "SET @@QUIET"+eq+val("q", "TRUE", "@vq")+";")
+			case 4:
+				out = append(out, "SET @@STATS"+eq+val("st", "FALSE", "@vfalse")+";")
+			case 5:
+				out = append(out, "SET @@LINE_BREAK"+eq+val("lb", "'LF'", "@vlb")+";")
+			case 6:
+				out = append(out, "SET @@TIMEZONE"+eq+val("tz", "'UTC'", "@vtz")+";")
+			case 7:
+				out = append(out, "SET @@STRICT_EQUAL"+eq+val("se", "FALSE", "@vfalse")+";")
+			case 8:
+				out = append(out, "SET @@DELIMITER"+eq+val("dl", "','", "@vdl")+";")
+			case 9:
+				out = append(out, "SET @@JSON_QUERY"+eq+val("jq", "''", "@vjq")+";")
+			case 10:
+				out = append(out, "SET @@ENCLOSE_ALL"+eq+val("ea", "FALSE", "@vfalse")+";")
+			default:
+				out = append(out, "SET @@COLOR"+eq+val("co", "FALSE", "@vfalse")+";")
+			}
+		case "datetime_format":
+			out = append(out, "ADD "+val("df", "'%Y/%m/%d %H'", "@vdfmt")+" TO @@DATETIME_FORMAT;", "REMOVE "+val("dfr", "'%Y/%m/%d %H'", "@vdfmt")+" FROM @@DATETIME_FORMAT;")
+		case "set_env":
+			out = append(out, "SET @%C14_ENV TO "+val("env", "'c14 env'", g.pick("envVar", []string{"@venv", "@vs", "@cs"}))+";")
+			if !g.prep {
+				out = append(out, "PRINT @%C14_ENV;")
+			}
+		case "echo":
+			out = append(out, g.pick("echoWord", []string{"ECHO ", "PRINT "})+val("echo", "'c14 echo'", g.pick("echoVar", []string{"@vs", "@cs", "@venv", "@vi", "@vd", "@vf"}))+";")
+		case "printf":
+			a, b := val("pfa", "'c14'", g.pick("pfaVar", []string{"@vs", "@cs", "@vd"})), val("pfb", "12", g.pick("pfbVar", []string{"@vi", "@vf", "@ci", "@vk"}))
+			out = append(out, "PRINTF "+g.pick("pfFmt", []string{"'%s|%s'", "'%q|%q'", "'%-8s|%s'"})+g.pick("pfUsing", []string{" USING ", ", "})+a+", "+b+";")
+		case "execute_format":
+			out = append(out, "EXECUTE 'PRINT %s + 1;' USING "+val("ex", "12", g.pick("exVar", []string{"@vi", "@vk", "@vl", "@ck"}))+";")
+		}
+	}
+	return strings.Join(out, "\n")
+}
+
 // genStmt draws a pure statement. pid is the alias given to the id column of periodic statements.
 // inBlock: the statement runs inside a loop or function body.
 func genStmt(g *gx, pid string, kinds []string) stmt {
@@ -911,6 +1028,79 @@ func genStmt(g *gx, pid string, kinds []string) stmt {
 		s := "WITH c AS (SELECT " + colList + ", " + inner + " AS c1 FROM " + src + ") SELECT c.id AS " + pid + ", c.c1, " + g.fields(1, d-1) + " FROM c ORDER BY c.id;"
 		g.qual = ""
 		return stmt{sql: s, periodic: true}
+	case "command":
+		// statements other than queries that take a value; every flag is set to the value it already has
+		return stmt{sql: g.commands()}
+	case "natural":
+		// every argument already has the type the function documents and is owned by a variable, a fetched value or
+		// a cell of the typed temporary table; later rows and statements create new values of that type
+		g.cols, g.natural = true, true
+		n := 1 + fw.Uniform(g.t, "nnatural", 3)
+		parts := make([]string, n)
+		for i := range parts {
+			name := g.pick("naturalFn", allFns)
+			if g.pct("naturalConv", 35) {
+				name = g.pick("naturalConvFn", []string{"STRING", "INTEGER", "FLOAT", "BOOLEAN", "TERNARY", "DATETIME", "DATETIME", "COALESCE", "IFNULL", "NULLIF", "IF"})
+			}
+			want := retOf(name)
+			if want == 'a' {
+				want = "nsdb"[fw.Uniform(g.t, "naturalAny", 4)]
+			}
+			switch name {
+			case "INTEGER", "FLOAT":
+				want = 'n'
+			}
+			parts[i] = g.call(name, 2, want)
+		}
+		g.natural = false
+		src := g.pick("naturalSrc", []string{"tt", "tt", "tt", "t"})
+		return stmt{sql: "SELECT id AS " + pid + ", " + strings.Join(parts, ", ") + " FROM " + src + " ORDER BY id;", periodic: true}
+	case "recursive_cte":
+		// the recursive term is ONE tree evaluated once per level, each time over the rows of the level before
+		// (generated in the order of the text: placeholders are numbered by position)
+		g.budget = 8
+		base := g.fields(1, d)
+		g.cols, g.qual = true, "x."
+		step := g.fields(1, d)
+		g.qual = ""
+		src := fromSrc(g, "src")
+		setop := g.pick("recSetop", []string{"UNION ALL", "UNION ALL", "UNION"})
+		levels := 3 + fw.Uniform(g.t, "recLevels", 4)
+		return stmt{sql: fmt.Sprintf("WITH RECURSIVE r (n, c1, c2) AS (SELECT 1, %s, 'r' %s SELECT r.n + 1, %s, r.c2 || '/' || COALESCE(STRING(x.k), '-') FROM r JOIN %s x ON INTEGER(x.id) = r.n + 1 WHERE r.n < %d) SELECT n, c1, c2 FROM r ORDER BY n;",
+			base, setop, step, src, levels)}
+	case "lateral":
+		// the lateral subquery is ONE tree evaluated once per row of the table on its left
+		g.cols = true
+		left := fromSrc(g, "ll")
+		right := fromSrc(g, "lr")
+		g.quals = []string{"x.", "y."}
+		switch fw.Uniform(g.t, "lateralShape", 3) {
+		case 0:
+			f := g.fields(1, d)
+			g.quals = nil
+			return stmt{sql: "SELECT x.id AS " + pid + ", z.c1 FROM " + left + " x CROSS JOIN LATERAL (SELECT " + f + " AS c1 FROM " + right + " y WHERE y.id = x.id) z ORDER BY " + pid + ";", periodic: true}
+		case 1:
+			g.budget = 5
+			agg := g.aggCall(g.pick("latAgg", []string{"COUNT", "MAX", "MIN", "SUM", "LISTAGG", "JSON_AGG"}), 2, false)
+			g.quals = nil
+			return stmt{sql: "SELECT x.id AS " + pid + ", z.c1, z.cnt FROM " + left + " x, LATERAL (SELECT " + agg + " AS c1, COUNT(*) AS cnt FROM " + right + " y WHERE y.g = x.g AND INTEGER(y.id) <= INTEGER(x.id)) z ORDER BY INTEGER(x.id);"}
+		}
+		f := g.fields(1, d)
+		g.quals = nil
+		return stmt{sql: "SELECT x.id AS " + pid + ", z.c1, z.yid IS NULL FROM " + left + " x LEFT JOIN LATERAL (SELECT " + f + " AS c1, y.id AS yid FROM " + right + " y WHERE y.id = x.id AND x.g < 2) z ON z.yid = x.id ORDER BY " + pid + ";", periodic: true}
+	case "distinct":
+		g.cols = true
+		nd := 1 + fw.Uniform(g.t, "ndistinct", 2)
+		var fs, names []string
+		for i := 0; i < nd; i++ {
+			fs = append(fs, g.fields(1, d)+fmt.Sprintf(" AS d%d", i+1))
+			names = append(names, fmt.Sprintf("d%d", i+1))
+		}
+		s := "SELECT DISTINCT " + strings.Join(fs, ", ") + " FROM " + fromSrc(g, "src") + " ORDER BY " + strings.Join(names, ", ")
+		if g.pct("distinctLimit", 40) {
+			s += g.pick("distinctLimitKind", []string{" LIMIT 50 PERCENT", " LIMIT 2 WITH TIES", " FETCH FIRST 3 ROWS ONLY", " OFFSET 1 ROWS FETCH NEXT 40 PERCENT WITH TIES"})
+		}
+		return stmt{sql: s + ";"}
 	case "orderby":
 		g.cols = true
 		src := fromSrc(g, "src")
@@ -919,9 +1109,27 @@ func genStmt(g *gx, pid string, kinds []string) stmt {
 		key := g.expr('n', 2)
 		s := "SELECT id, " + fields + " FROM " + src + " ORDER BY " + key + g.pick("dir", []string{"", " DESC", " ASC NULLS LAST"}) + ", INTEGER(id)"
 		if g.pct("limit", 60) {
-			s += " LIMIT " + g.pick("limit", []string{"3", "5", "(1 + 2)", "@vk + 1"})
-			if g.pct("offset", 40) {
-				s += " OFFSET " + g.pick("offset", []string{"1", "2", "@vk"})
+			switch fw.Weighted(g.t, "limitForm", []int{50, 15, 20, 15}) {
+			case 0:
+				s += " LIMIT " + g.pick("limit", rowCounts)
+				if g.pct("offset", 40) {
+					s += " OFFSET " + g.pick("offset", rowOffsets)
+				}
+			case 1:
+				g.use("LIMIT WITH TIES")
+				s += " LIMIT " + g.pick("limit", rowCounts) + g.pick("rowsWord", []string{"", " ROWS"}) + " WITH TIES"
+			case 2:
+				g.use("LIMIT PERCENT")
+				s += " LIMIT " + g.pick("percent", []string{"30", "50.5", "(20 + 5)", "@vk * 10", "100", "@vpc", "(@vpc)", "@vf2"}) + " PERCENT" + g.pick("ties", []string{"", " WITH TIES", " ONLY"})
+				if g.pct("offset", 40) {
+					s += " OFFSET " + g.pick("offset", rowOffsets)
+				}
+			default:
+				g.use("FETCH FIRST")
+				if g.pct("offset", 50) {
+					s += " OFFSET " + g.pick("offset", rowOffsets) + g.pick("offRows", []string{"", " ROWS"})
+				}
+				s += " FETCH " + g.pick("fetchWord", []string{"FIRST", "NEXT"}) + " " + g.pick("fetchN", []string{"3 ROWS", "1 ROW", "(1 + 2) ROWS", "40 PERCENT", "@vl ROWS", "(@vl) ROWS", "@vpc PERCENT"}) + g.pick("ties", []string{"", " WITH TIES", " ONLY"})
 			}
 		}
 		return stmt{sql: s + ";"}
@@ -944,7 +1152,7 @@ func (g *gx) analytic() string {
 	case "ROW_NUMBER", "RANK", "DENSE_RANK", "CUME_DIST", "PERCENT_RANK":
 		return name + "() OVER (" + part + order + ")"
 	case "NTILE":
-		return "NTILE(" + g.pick("ntile", []string{"1", "2", "3", "@vk + 1"}) + ") OVER (" + part + order + ")"
+		return "NTILE(" + g.pick("ntile", []string{"1", "2", "3", "@vk + 1", "@vl", "(@vl)"}) + ") OVER (" + part + order + ")"
 	case "FIRST_VALUE", "LAST_VALUE":
 		if g.pct("ignoreNulls", 30) {
 			ignore = " IGNORE NULLS"
@@ -954,7 +1162,7 @@ func (g *gx) analytic() string {
 		if g.pct("ignoreNulls", 30) {
 			ignore = " IGNORE NULLS"
 		}
-		return "NTH_VALUE(" + g.expr('a', 2) + ", " + g.pick("nth", []string{"1", "2", "3"}) + ")" + ignore + " OVER (" + part + order + frame + ")"
+		return "NTH_VALUE(" + g.expr('a', 2) + ", " + g.pick("nth", []string{"1", "2", "3", "@vl", "(@vl)"}) + ")" + ignore + " OVER (" + part + order + frame + ")"
 	case "LAG", "LEAD":
 		if g.pct("ignoreNulls", 30) {
 			ignore = " IGNORE NULLS"
@@ -962,7 +1170,7 @@ func (g *gx) analytic() string {
 		ty := "nsd"[fw.Uniform(g.t, "lagTy", 3)]
 		s := name + "(" + g.expr(ty, 2)
 		if g.pct("lagOff", 60) {
-			s += ", " + g.pick("lagoff", []string{"1", "2", "0"})
+			s += ", " + g.pick("lagoff", []string{"1", "2", "0", "@vl", "@vk", "(@vk)"})
 			if g.pct("lagDef", 50) {
 				s += ", " + g.leaf(ty)
 			}
@@ -999,7 +1207,8 @@ type unit struct {
 	Fails    []string `json:"fails,omitempty"`         // failing statements executed between the repetitions
 }
 
-var topKinds = []string{"print", "select_nofrom", "rows", "rows", "group", "analytic", "from_subquery", "join", "union", "cte", "orderby", "rows_fixed", "nested_same", "nested_same"}
+var topKinds = []string{"print", "select_nofrom", "rows", "rows", "group", "analytic", "from_subquery", "join", "union", "cte", "orderby", "rows_fixed", "nested_same", "nested_same",
+	"recursive_cte", "recursive_cte", "lateral", "lateral", "distinct", "command", "command", "natural", "natural", "natural"}
 
 // statements that fail, each in another phase of the evaluation; they read only
 var failingStmts = []string{
@@ -1032,13 +1241,24 @@ var failingStmts = []string{
 
 const fnParams = "@pa, @pb, @pc, @pe"
 
+// fnParamList renders the parameter list of a generated function; the last parameter may carry a DEFAULT expression
+// (evaluated, from the tree kept in the function, by every call that omits the argument: omit = true).
+func fnParamList(g *gx) (params string, omit bool) {
+	if !g.pct("paramDefault", 40) {
+		return fnParams, false
+	}
+	g.uses["stmt:param_default"] = true
+	def := g.pick("paramDefaultExpr", []string{"2", "(1 + 2)", "LEN(COALESCE(@pb, 'ab')) % 4", "INTEGER(COALESCE(@pa, 1)) % 3 + 1", "IF(@pc IS NULL, 1, 3)"})
+	return "@pa, @pb, @pc, @pe DEFAULT " + def, g.pct("omitDefaulted", 70)
+}
+
 func genUnit(t *rapid.T, idx int, uses, leaves map[string]bool, wn bool, pos string) unit {
 	g := newGx(t, uses, leaves)
 	g.wn, g.pos = wn, pos
 	u := unit{Reps: 2 + fw.Uniform(t, "reps", 2), Churn: fw.Pct(t, "churn", 40)}
 	pid := fmt.Sprintf("pid%d", idx)
 	name := fmt.Sprintf("u%d", idx)
-	u.Kind = fw.PickU(t, "unitKind", []string{"twice", "twice", "while", "while", "func_stmt", "func_rows", "prepared", "prepared", "uagg", "cursor_loop"})
+	u.Kind = fw.PickU(t, "unitKind", []string{"twice", "twice", "while", "while", "func_stmt", "func_rows", "prepared", "prepared", "uagg", "cursor_loop", "func_recursive", "cursor_prepared"})
 	uses["rep:"+u.Kind] = true
 	switch u.Kind {
 	case "twice", "while":
@@ -1063,9 +1283,14 @@ func genUnit(t *rapid.T, idx int, uses, leaves map[string]bool, wn bool, pos str
 		g.cols, g.qual, g.quals, g.budget = false, "", nil, 8
 		ret := g.expr('a', 3)
 		u.Inner = name + "f"
-		u.Decl = fmt.Sprintf("DECLARE f%d FUNCTION (%s) AS BEGIN\nPRINT '@@b:%s@@';\n%s\nPRINT '@@e:%s@@';\nRETURN %s;\nEND;", idx, fnParams, u.Inner, strings.Join(parts, "\n"), u.Inner, ret)
+		params, omit := fnParamList(g)
+		u.Decl = fmt.Sprintf("DECLARE f%d FUNCTION (%s) AS BEGIN\nPRINT '@@b:%s@@';\n%s\nPRINT '@@e:%s@@';\nRETURN %s;\nEND;", idx, params, u.Inner, strings.Join(parts, "\n"), u.Inner, ret)
 		g.pN, g.pS, g.pD, g.pK = nil, nil, nil, nil
-		u.Body = fmt.Sprintf("PRINT f%d(%s, %s, %s, %s);", idx, g.leaf('n'), g.leaf('s'), g.leaf('d'), g.leaf('k'))
+		if omit {
+			u.Body = fmt.Sprintf("PRINT f%d(%s, %s, %s);", idx, g.leaf('n'), g.leaf('s'), g.leaf('d'))
+		} else {
+			u.Body = fmt.Sprintf("PRINT f%d(%s, %s, %s, %s);", idx, g.leaf('n'), g.leaf('s'), g.leaf('d'), g.leaf('k'))
+		}
 	case "func_rows":
 		// a scalar function without output, called for every row (concurrently when CPU > 1)
 		g.pN, g.pS, g.pD, g.pK = []string{"@pa"}, []string{"@pb"}, []string{"@pc"}, []string{"@pe"}
@@ -1079,15 +1304,73 @@ func genUnit(t *rapid.T, idx int, uses, leaves map[string]bool, wn bool, pos str
 		r1 := g.expr('a', 3)
 		g.budget = 8
 		r2 := g.call(g.pick("anyFn", allFns), 3, 0)
-		u.Decl = fmt.Sprintf("DECLARE f%d FUNCTION (%s) AS BEGIN\nVAR @lx := %s;\nIF %s THEN RETURN %s; END IF;\nRETURN %s;\nEND;", idx, fnParams, local, cond, r1, r2)
+		params, omit := fnParamList(g)
+		u.Decl = fmt.Sprintf("DECLARE f%d FUNCTION (%s) AS BEGIN\nVAR @lx := %s;\nIF %s THEN RETURN %s; END IF;\nRETURN %s;\nEND;", idx, params, local, cond, r1, r2)
 		g.pN, g.pS, g.pD, g.pK, g.noVars = nil, nil, nil, nil, false
 		g.cols = true
 		g.budget = 4
 		u.Pid = pid
-		u.Body = fmt.Sprintf("SELECT id AS %s, f%d(%s, %s, %s, %s) FROM %s ORDER BY id;", pid, idx, g.expr('n', 1), g.expr('s', 1), g.expr('d', 1), g.leaf('k'), fromSrc(g, "src"))
+		if omit {
+			u.Body = fmt.Sprintf("SELECT id AS %s, f%d(%s, %s, %s) FROM %s ORDER BY id;", pid, idx, g.expr('n', 1), g.expr('s', 1), g.expr('d', 1), fromSrc(g, "src"))
+		} else {
+			u.Body = fmt.Sprintf("SELECT id AS %s, f%d(%s, %s, %s, %s) FROM %s ORDER BY id;", pid, idx, g.expr('n', 1), g.expr('s', 1), g.expr('d', 1), g.leaf('k'), fromSrc(g, "src"))
+		}
+	case "func_recursive":
+		// nested invocations evaluate the same body tree while the outer invocations still hold their values
+		g.pN, g.pS, g.pK = []string{"@pa"}, []string{"@pb"}, []string{"@pe"}
+		g.noVars = fw.Pct(t, "fnNoVars", 50)
+		g.budget = 6
+		bottom := g.expr('a', 2)
+		g.budget = 6
+		down := g.expr('n', 2)
+		g.pS = append(g.pS, "@lr")
+		g.pN = append(g.pN, "@lr")
+		g.budget = 8
+		up := g.expr('a', 3)
+		u.Decl = fmt.Sprintf("DECLARE f%d FUNCTION (@pa, @pb, @pe DEFAULT 2) AS BEGIN\nIF @pe IS NULL OR @pe <= 0 THEN RETURN %s; END IF;\nVAR @lr := f%d(%s, @pb || 'r', @pe - 1);\nRETURN %s;\nEND;", idx, bottom, idx, down, up)
+		g.pN, g.pS, g.pK, g.noVars = nil, nil, nil, false
+		g.cols = true
+		g.budget = 4
+		u.Pid = pid
+		depth := "INTEGER(k) % 4"
+		if fw.Pct(t, "recDefaultDepth", 30) {
+			depth = ""
+		}
+		args := g.expr('n', 1) + ", " + g.expr('s', 1)
+		if depth != "" {
+			args += ", " + depth
+		}
+		u.Body = fmt.Sprintf("SELECT id AS %s, f%d(%s) FROM %s ORDER BY id;", pid, idx, args, fromSrc(g, "src"))
+	case "cursor_prepared":
+		// a cursor over a prepared statement: every OPEN evaluates the tree held by the prepared statement with the
+		// values of its USING clause; the rows are visited in every direction
+		g.prep, g.cols = true, true
+		g.budget = 8
+		f := g.fields(1, 2)
+		src := fromSrc(g, "src")
+		g.budget = 5
+		cond := g.expr('b', 2)
+		g.prep = false
+		u.PrepName = fmt.Sprintf("p%d", idx)
+		u.PrepText = "SELECT " + f + ", INTEGER(id) FROM " + src + " WHERE INTEGER(id) <= 9 OR " + cond + " ORDER BY INTEGER(id)"
+		u.Decl = fmt.Sprintf("PREPARE %s FROM %s;\nDECLARE c%d CURSOR FOR %s;", u.PrepName, quote(u.PrepText), idx, u.PrepName)
+		open := fmt.Sprintf("OPEN c%d", idx)
+		if len(g.using) > 0 {
+			open += " USING " + strings.Join(g.using, ", ")
+		}
+		var b strings.Builder
+		// (a FETCH beyond the rows leaves the variables as they are - the manual says it sets them to NULL -, so the
+		// values of the previous repetition would show through)
+		b.WriteString("@x1 := NULL;\n@x2 := NULL;\n" + open + ";\n")
+		for i, n := 0, 3+fw.Uniform(t, "nfetch", 5); i < n; i++ {
+			pos := fw.PickU(t, "fetchPos", []string{"", "NEXT ", "NEXT ", "PRIOR ", "FIRST ", "LAST ", "ABSOLUTE 3 ", "RELATIVE -2 ", "RELATIVE 2 ", "ABSOLUTE @vk ", "ABSOLUTE (@vl) ", "RELATIVE @vl ", "RELATIVE (1) "})
+			fmt.Fprintf(&b, "FETCH %sc%d INTO @x1, @x2;\nPRINT @x1; PRINT @x2;\n", pos, idx)
+		}
+		fmt.Fprintf(&b, "PRINT CURSOR c%d COUNT;\nCLOSE c%d;", idx, idx)
+		u.Body = b.String()
 	case "prepared":
 		g.prep = true
-		st := genStmt(g, pid, []string{"select_nofrom", "rows", "rows", "group", "analytic", "orderby", "join"})
+		st := genStmt(g, pid, []string{"select_nofrom", "rows", "rows", "group", "analytic", "orderby", "join", "recursive_cte", "lateral", "distinct", "command", "natural"})
 		g.prep = false
 		if st.periodic {
 			u.Pid = pid
